@@ -37,7 +37,8 @@ PROP = {
              "one payment settled; distinct = (restarts, flaps, power loss none/idle/mid-activity, number of distinct (direction,kind,outcome) classes, settled count bucket, delay profile, saturation none/direction+limit kind)"),
     "race_anchors": ["htlcswitch/link.go", "htlcswitch/switch.go", "htlcswitch/circuit_map.go", "htlcswitch/mailbox.go",
                      "htlcswitch/payment_result.go", "channeldb/forwarding_package.go", "lnwallet/channel.go"],
-    "assumptions": ["cluster restart = simultaneous stop of all three nodes after which every node reloads from its databases",
+    "assumptions": ["an incoming link quitting while Switch.ForwardPackets is inside a replayed batch is not placed deliberately (no handle without a source hook; seed C08i = C07f is caught by C07 only)",
+                    "cluster restart = simultaneous stop of all three nodes after which every node reloads from its databases",
                     "invoice registries and preimage caches are carried over a graceful restart (they are persistent in lnd)",
                     "power loss = all three nodes lose power at the same instant: each database holds exactly the write transactions committed before it, all messages in flight are lost; invoices (a database of their own per node in the fixture) and the preimage cache are cut at the same instant"],
     "units": [{
